@@ -3,14 +3,16 @@
    from a FIFO channel.  Per document it keeps {handles, sync, subscribers} while
    the document is open.  ActorStep is the sequential meaning of one request; it is
    shared by the model (Actor.tla) and the trace specification (ActorTrace.tla).                                                             *)
-EXTENDS Entries, SequencesExt, TLC
+EXTENDS Entries, Policy, SequencesExt, TLC
 
 CONSTANTS OpenCounts,      \* close releases exactly one handle and the document stays usable until the last one
           SyncSticky,      \* re-opening never clears the sync flag
           GateSync,        \* remote-insert / reconciliation requests require the sync flag
           GateOpen         \* reads, writes and subscriptions require an open document
 
-NoDoc == [cap |-> "none", recs |-> {}, peers |-> <<>>]
+NoDoc == [cap |-> "none", recs |-> {}, peers |-> <<>>, pol |-> DefaultPolicy]
+\* a head report as sent by a peer: a sequence of <<author, timestamp>> pairs with distinct authors
+ReportFn(rep) == [a \in {rep[i][1] : i \in 1..Len(rep)} |-> rep[CHOOSE i \in 1..Len(rep) : rep[i][1] = a][2]]
 \* the useful-peer list of a document: most recently registered first, no duplicates, at most five (C17)
 MRU5(ps, p) == LET all == <<p>> \o SelectSeq(ps, LAMBDA x : x # p)
                IN IF Len(all) > 5 THEN SubSeq(all, 1, 5) ELSE all
@@ -89,6 +91,14 @@ ActorStep(st, q) ==
          IF doc.cap = "none" THEN Fail(st, "NotFound")
          ELSE Ok(SetDoc(st, d, [doc EXCEPT !.peers = MRU5(@, q.p)]), <<>>)
     [] q.op = "GetPeers" -> IF gatedOpen THEN Fail(st, "NotOpen") ELSE Ok(st, doc.peers)    \* (reading asks for an open document)
+    \* requests the actor hands to the store without asking for an open document (the live engine uses them on documents it
+    \* merely syncs): the download policy of a document that exists (C15), news detection against the records held (C13),
+    \* the store-wide list of content hashes that garbage collection must keep (C16)
+    [] q.op = "SetPolicy" ->
+         IF doc.cap = "none" THEN Fail(st, "NotFound") ELSE Ok(SetDoc(st, d, [doc EXCEPT !.pol = q.pol]), <<>>)
+    [] q.op = "GetPolicy" -> Ok(st, <<doc.pol>>)
+    [] q.op = "HasNews" -> Ok(st, <<NewsCount(ReportFn(q.report), HeadsOf(doc.recs))>>)
+    [] q.op = "Hashes" -> Ok(st, <<UNION {{e.h : e \in st.docs[x].recs} : x \in DOMAIN st.docs}>>)
     [] q.op \in {"Flush", "List"} -> Ok(st, <<>>)
     [] OTHER -> Fail(st, "BadRequest")
 =============================================================================
